@@ -36,7 +36,7 @@ fn main() {
         "C19" => c19::run(seed, n, outdir, corpus),
         "C11" => c11::run(seed, n, outdir, corpus),
         "C20" => c20::run(seed, n, outdir, corpus),
-        "C14" | "C15" | "C16" | "C18" => trn::run(prop, seed, n, outdir, corpus),
+        "C14" | "C15" | "C16" | "C18" | "C17T" => trn::run(prop, seed, n, outdir, corpus),
         "C05" | "C09" => img::run(prop, seed, n, outdir, corpus),
         "TOK" | "C01" | "C02" | "C03" | "C04" | "C08" | "C10" | "C12" | "C13" => tok::run(prop, seed, n, outdir, corpus),
         _ => {
